@@ -254,6 +254,39 @@ func judgeRules(c *Case, seed uint64, cache *storeCache, rules []*placement.Rule
 		}
 		return out
 	}
+	evaluate(out, c, m, in, got, seed)
+	return out
+}
+
+// judgeGot judges a result that was obtained elsewhere (a real entry point such as
+// RuleManager.FitRegion on long-lived objects). c must describe what is VISIBLE in the objects the
+// call worked on: store labels, region peers / leader, exported fields of the rule objects; peers and
+// rules are those objects, parallel to c.Peers / c.Rules.
+func judgeGot(c *Case, seed uint64, got *placement.RegionFit, peers []*metapb.Peer, rules []*placement.Rule) *outcome {
+	out := &outcome{}
+	m, skip := newModel(c)
+	if skip != "" {
+		out.Skip = skip
+		return out
+	}
+	if got == nil {
+		out.Findings = append(out.Findings, finding{"result:nil", "FitRegion returned nil"})
+		return out
+	}
+	evaluate(out, c, m, &pdInput{peers: peers, rules: rules}, got, seed)
+	return out
+}
+
+// evaluate checks every clause of the property for one result against the model.
+func evaluate(out *outcome, c *Case, m *model, in *pdInput, got *placement.RegionFit, seed uint64) {
+	add := func(key, format string, a ...interface{}) {
+		for _, f := range out.Findings {
+			if f.Key == key {
+				return
+			}
+		}
+		out.Findings = append(out.Findings, finding{key, fmt.Sprintf(format, a...)})
+	}
 	out.shape = m.shapeKey()
 	for k := 0; k < m.k; k++ {
 		for j := 0; j < m.n; j++ {
@@ -286,16 +319,16 @@ func judgeRules(c *Case, seed uint64, cache *storeCache, rules []*placement.Rule
 	structural := true
 	if len(got.RuleFits) != m.k {
 		add("result:rule-fit-count", "result has %d rule fits for %d rules", len(got.RuleFits), m.k)
-		return out
+		return
 	}
 	for k, rf := range got.RuleFits {
 		if rf == nil {
 			add("result:nil-rule-fit", "RuleFits[%d] is nil", k)
-			return out
+			return
 		}
 		if rf.Rule != in.rules[k] {
 			add("result:rule-fit-of-other-rule", "RuleFits[%d].Rule is not the %d-th rule of the list", k, k)
-			return out
+			return
 		}
 		out.Got = append(out.Got, ruleOut{Rule: rf.Rule.ID, Peers: ids(rf.Peers), Mismatched: ids(rf.PeersWithDifferentRole), Isolation: rf.IsolationScore})
 	}
@@ -473,7 +506,7 @@ func judgeRules(c *Case, seed uint64, cache *storeCache, rules []*placement.Rule
 			}
 		}
 	}
-	return out
+	return
 }
 
 func keysOf(m map[uint64]int) []uint64 {
